@@ -51,7 +51,7 @@ class Float3(FloatPrecision):
 
     @property
     def exponent3(self) -> int:
-        return int(3*np.floor((self.precision + self.exponent - 1)/3))
+        return int(3*np.floor((len(str(abs(self.mantissa))) + self.exponent - 1)/3))
 
 @dataclass
 class ScientificFloat:
